@@ -128,6 +128,13 @@ def runCtrl (p : P) : Option String := do
   | ["separatereq", sid, sys] => pure (showCtrl (mkSeparateReq (← sid.toNat?) (← unhex sys)))
   | ["rejectreq", sid, pt, st, sys, rc] =>
     pure (showCtrl (mkRejectReq (← sid.toNat?) (← pt.toNat?) (← st.toNat?) (← unhex sys) (← rc.toNat?)))
+  | ["twice", kind, h, c1, c2] =>
+    let req ← mkCtrl (← unhex h)
+    let mk (c : String) : Option Bytes :=
+      if kind == "selectrsp" then mkSelectRsp req (c.toNat?.getD 0)
+      else if kind == "deselectrsp" then mkDeselectRsp req (c.toNat?.getD 0)
+      else mkLinktestRsp req
+    pure (showCtrl (mk c1) ++ " | " ++ showCtrl (mk c2) ++ " | " ++ showCtrl (some req))
   | ["selectrsp", h, st] => pure (showCtrl ((mkCtrl (← unhex h)).bind (fun r => mkSelectRsp r (st.toNat?.getD 0))))
   | ["deselectrsp", h, st] => pure (showCtrl ((mkCtrl (← unhex h)).bind (fun r => mkDeselectRsp r (st.toNat?.getD 0))))
   | ["linktestrsp", h] => pure (showCtrl ((mkCtrl (← unhex h)).bind mkLinktestRsp))
